@@ -29,8 +29,26 @@ def parse_expr(s: str) -> ast.expr:
 
 
 class SpecFun:
-    def __init__(self, name: str, source: str, result: str = "int"):
+    axiom = None
+
+    def __init__(self, name: str, source: str, result: str = "int", axiom: str | None = None, reads=None, quant=None):
         self.name = name
+        self.axiom = axiom
+        self.reads = reads  # record-list fields the function depends on (identity of the symbol)
+        self.quant = quant or []  # parameters the defining axiom is universally quantified over
+        if axiom is not None:
+            # characterised by an axiom over its parameters and `result` (a total function satisfying it must
+            # exist and be unique - argued where the spec function is declared); `source` is the native version
+            self.source = textwrap.dedent(source)
+            tree = ast.parse(self.source)
+            self.fn = tree.body[0]
+            self.params = [a.arg for a in self.fn.args.args]
+            self.result = result
+            self.expr = None
+            ns: dict = {}
+            exec(compile(tree, f"<spec {name}>", "exec"), ns)
+            self.native = ns[name]
+            return
         self.source = textwrap.dedent(source)
         tree = ast.parse(self.source)
         self.fn = tree.body[0]
@@ -144,7 +162,7 @@ class SpecMixin:
                 ident.append(repr(a.a))
             elif isinstance(a, VList):
                 p = self.get_payload(a.ref, self.use_old)
-                ident.append(self.payload_ident(p))
+                ident.append(self.payload_ident(p, sf.reads))
             elif isinstance(a, VObj):
                 ident.append(a.ref)
             else:
@@ -153,6 +171,51 @@ class SpecMixin:
         uf = z3.Function("$".join(ident), *[t.sort() for t in targs], rs)
         app = uf(*targs) if targs else uf()
         key = (str(uf), tuple(str(z3.simplify(t)) for t in targs))
+        if sf.axiom is not None and sf.quant:
+            # universally quantified defining axiom, once per instance of the non-quantified arguments
+            qidx = [i for i, p in enumerate([q for q, a in zip(sf.params, args) if isinstance(a, (VInt, VBool, VAtom)) or (isinstance(a, VStr) and a.kind == "chr")]) if p in sf.quant]
+            fixed = tuple(str(z3.simplify(t)) for i, t in enumerate(targs) if i not in qidx)
+            qkey = (str(uf), "Q", fixed)
+            if qkey not in self.unfolded:
+                self.unfolded.add(qkey)
+                qvars = {}
+                newargs = []
+                ti = 0
+                for pname, a in zip(sf.params, args):
+                    if isinstance(a, (VInt, VBool, VAtom)) or (isinstance(a, VStr) and a.kind == "chr"):
+                        if pname in sf.quant:
+                            qv = fresh("q_" + pname)
+                            qvars[pname] = qv
+                            newargs.append(VAtom(qv) if isinstance(a, VAtom) else VInt(qv))
+                        else:
+                            newargs.append(a)
+                        ti += 1
+                    else:
+                        newargs.append(a)
+                qt = []
+                for pname, a in zip(sf.params, newargs):
+                    if isinstance(a, (VInt, VAtom)):
+                        qt.append(a.t)
+                    elif isinstance(a, VBool):
+                        qt.append(a.t)
+                    elif isinstance(a, VStr) and a.kind == "chr":
+                        qt.append(a.a)
+                qapp = uf(*qt)
+                saved = self.spec_bind
+                self.spec_bind = dict(zip(sf.params, newargs))
+                self.spec_bind["result"] = VBool(qapp) if sf.result == "bool" else VInt(qapp)
+                self.spec_mode += 1
+                self.unfold_depth += 5
+                try:
+                    body = self.truth(self.eval(parse_expr(sf.axiom), self.frames[-1] if self.frames else None))
+                finally:
+                    self.unfold_depth -= 5
+                    self.spec_mode -= 1
+                    self.spec_bind = saved
+                ax = z3.ForAll(list(qvars.values()), body, patterns=[qapp])
+                self.def_axioms.append(ax)
+                self.assume(ax)
+            return VBool(app) if sf.result == "bool" else VInt(app)
         if unfold and key not in self.unfolded and self.unfold_depth < 2:
             self.unfolded.add(key)
             saved = self.spec_bind
@@ -160,22 +223,36 @@ class SpecMixin:
             self.unfold_depth += 1
             self.spec_mode += 1
             try:
-                body = self.eval(sf.expr, self.frames[-1] if self.frames else None)
+                if sf.axiom is not None:
+                    self.spec_bind["result"] = VBool(app) if sf.result == "bool" else VInt(app)
+                    ax = self.truth(self.eval(parse_expr(sf.axiom), self.frames[-1] if self.frames else None))
+                else:
+                    body = self.eval(sf.expr, self.frames[-1] if self.frames else None)
+                    ax = app == (body.t if isinstance(body, (VInt, VBool)) else self.as_int(body))
             finally:
                 self.spec_mode -= 1
                 self.unfold_depth -= 1
                 self.spec_bind = saved
-            bt = body.t if isinstance(body, (VInt, VBool)) else self.as_int(body)
-            self.def_axioms.append(app == bt)
-            self.assume(app == bt)
+            self.def_axioms.append(ax)
+            self.assume(ax)
         return VBool(app) if sf.result == "bool" else VInt(app)
 
     unfold_depth = 0
 
-    def payload_ident(self, p):
+    def payload_ident(self, p, reads=None):
+        import hashlib
+
+        if isinstance(p, RecListP) and reads:
+            txt = "|".join(f"{f}:{p.fields[f].sexpr()}" for f in sorted(reads)) + "|" + p.len.sexpr()
+            return txt if len(txt) < 40 else "L" + hashlib.md5(txt.encode()).hexdigest()[:10]
+
         if isinstance(p, IntListP):
-            return f"{p.arr.sexpr()}|{p.len.sexpr()}" if p.arr.num_args() else str(p.arr)
-        raise ContractError("spec function over this list kind")
+            txt = f"{p.arr.sexpr()}|{p.len.sexpr()}"
+        elif isinstance(p, RecListP):
+            txt = "|".join(f"{f}:{a.sexpr()}" for f, a in sorted(p.fields.items())) + "|" + p.len.sexpr()
+        else:
+            raise ContractError("spec function over this list kind")
+        return txt if len(txt) < 40 else "L" + hashlib.md5(txt.encode()).hexdigest()[:10]
 
     # handy spec helpers ----------------------------------------------------
     def spec_new_tokens(self, node, fr):
